@@ -179,13 +179,24 @@ fn mismatches(cx: &mut Cx, issuer: NodeId, holder: NodeId, key: Arc<KeyMat>, req
     { let mut r = req.clone(); r.bases = key.bases2.0[..n].to_vec(); deliver_request(cx, issuer, key.clone(), r, "misroute_bases".into(), false); }
     { let other = pool_key((key.idx + 1) % POOL_SIZE); let mut r = req.clone(); r.pk = other.pk.clone(); deliver_request(cx, issuer, key.clone(), r, "misroute_key".into(), false); }
     { let mut r = req.clone(); r.c_value += 1; deliver_request(cx, issuer, key.clone(), r, "commitment_value:+1".into(), false); }
+    if trusted {
+        // the link proof between C and the trusted commitment removed from the frame, while the
+        // issuer still holds the trusted commitment
+        let mut v = parse(&req.zk_json);
+        v["CL03"]["proof_C_Ctrusted"] = serde_json::Value::Null;
+        let mut r = req.clone(); r.zk_json = v.to_string();
+        deliver_request(cx, issuer, key.clone(), r, "trusted_link_proof_removed".into(), false);
+        // and a foreign trusted commitment value the proof says nothing about
+        let mut r = req.clone(); r.ct_value = r.ct_value.map(|x| x + 1u32);
+        deliver_request(cx, issuer, key.clone(), r, "trusted_commitment_value:+1".into(), false);
+    }
     // field-wise perturbation of the proof JSON (a slice of the leaves per run; the whole
     // proof over consecutive runs)
     let v = parse(&req.zk_json);
     let ls = leaves(&v);
     let per = if cx.thorough { 24 } else { 8 };
     let nsl = (ls.len() as u64 + per - 1) / per;
-    let slice = cx.ch.forced("leaf_slice", nsl.max(1), cx.run_index / 57);
+    let slice = cx.ch.forced("leaf_slice", nsl.max(1), cx.run_index);
     cx.add("n.proof_leaves", ls.len() as u64);
     for k in (slice * per) as usize..(((slice + 1) * per) as usize).min(ls.len()) {
         let ps = perturbations(&ls, k);
